@@ -1755,6 +1755,14 @@ int32 matrixCreateSessionTicket(ssl_t *ssl, unsigned char *out, int32 *outLen)
     psLockMutex(&g_sessTicketLock);
     /* Ticket itself */
     keys = ssl->keys->sessTickets;
+    if (keys == NULL)
+    {
+        /* The last ticket key was deleted (matrixSslDeleteSessionTicketKey,
+           possibly by another thread) after this handshake had agreed to
+           issue a ticket. */
+        rc = PS_FAILURE;
+        goto ERR_LOCKED;
+    }
     /* name */
     Memcpy(c, keys->name, 16);
     c += 16;
